@@ -377,9 +377,11 @@ func r08c(c *core.Ctx) {
 	}
 	c.Check(nxOK, "redis-nx-plumbed", as.Pos(), as, "RedisCache.AsyncStore queues the op with nx = setNX", "")
 	nxUse := false
-	for _, call := range core.Calls(sl) {
-		if strings.HasSuffix(core.CallName(call), ".Nx") {
-			nxUse = hasCond(call.Block(), ".nx", true)
+	for _, hf := range helperReach(sl, 1) {
+		for _, call := range core.Calls(hf) {
+			if strings.HasSuffix(core.CallName(call), ".Nx") {
+				nxUse = hasCond(call.Block(), ".nx", true)
+			}
 		}
 	}
 	c.Check(nxUse, "redis-nx-used", sl.Pos(), sl, "the redis SET carries NX exactly on the op.nx edge", "")
